@@ -30,6 +30,9 @@ Streams
   makeop       funsor.make_op ops (the eager rule to_data-by-name -> raw fn -> to_funsor): unary / binary, non
                commutative raw functions, event shapes, int dtype; operands over every ordered subset pair of a
                3-name pool, sizes all-equal / mixed / with a size-1 input; value at every named point gated
+  interleave   lazy Contractions (2-3 terms, Tensor + Gaussian) whose terms' inputs interleave, aligned to EVERY
+               permutation of the union: .inputs == names exactly (alignT_keys_full), value by name AND by
+               positional call; funsor.symbolic functions called positionally
   index        ravel / unravel of the model vs numpy on a box
 """
 import itertools
@@ -1717,6 +1720,155 @@ def classes_stream(ctx, n_rounds):
 
 
 # ------------------------------------------------------------------------------------------
+# stream: lazy Contractions whose terms' inputs INTERLEAVE; order gated exactly, positional calls
+# ------------------------------------------------------------------------------------------
+
+def py_interleave_snippet(c):
+    return f"""
+# C19 replay: (t1 * t2 [* t3]).align(names) on a lazy Contraction must have .inputs == names and the
+# same value by name and by POSITION
+import itertools, numpy as np, funsor
+from collections import OrderedDict
+from funsor import Bint, Tensor
+funsor.set_backend("numpy")
+sizes = {c['sizes']!r}; terms = {c['terms']!r}; names = tuple({c['names']!r})
+ts = []
+for n, keys in enumerate(terms):
+    shape = [sizes[k] for k in keys]
+    ts.append(Tensor(np.arange(float(np.prod(shape))).reshape(shape) + 1.0 + 10 * n, OrderedDict((k, Bint[sizes[k]]) for k in keys)))
+with funsor.interpretations.normalize:
+    x = ts[0]
+    for t in ts[1:]:
+        x = x * t
+g = x.align(names)
+FAILS = tuple(g.inputs) != names
+for pt in itertools.product(*[range(sizes[k]) for k in names]):
+    env = dict(zip(names, pt))
+    e = float(np.prod([t.data[tuple(env[k] for k in keys)] for t, keys in zip(ts, terms)]))
+    FAILS = FAILS or float(g(**env).data) != e or (tuple(g.inputs) == names and float(g(*pt).data) != e)
+print("inputs", tuple(g.inputs), "FAILS", FAILS)
+"""
+
+
+def interleave_stream(ctx, n_rounds):
+    from funsor.gaussian import Gaussian
+    from funsor.interpretations import normalize
+    rng = ctx.rng
+    patterns = [[["i", "k"], ["j"]], [["i", "l"], ["j", "k"]], [["i", "l"], ["j"], ["k"]],
+                [["i", "k"], ["j", "l"]], [["i"], ["j", "k"]], [["j"], ["i", "k"]]]
+    for rnd in range(n_rounds):
+        for pat in patterns:
+            base = sorted({k for t in pat for k in t})
+            ren = dict(zip(base, rng.sample(NAMES, len(base))))
+            terms = [[ren[k] for k in t] for t in pat]
+            names_all = [ren[k] for k in base]
+            sizes = {k: (rng.choice([2, 3]) if rnd % 2 else 2) for k in names_all}
+            ts = []
+            for n_, keys in enumerate(terms):
+                shape = [sizes[k] for k in keys]
+                ts.append(Tensor(np.arange(float(np.prod(shape))).reshape(shape) + 1.0 + 10 * n_,
+                                 OrderedDict((k, Bint[sizes[k]]) for k in keys)))
+            op = rng.choice(["mul", "add"])
+            with normalize:
+                x = ts[0]
+                for t in ts[1:]:
+                    x = (x * t) if op == "mul" else (x + t)
+            ctx.count(f"interleave:lazy={type(x).__name__}")
+            allpts = list(itertools.product(*[range(sizes[k]) for k in names_all]))
+            for names in itertools.permutations(names_all):
+                c = {"stream": "interleave", "terms": terms, "sizes": sizes, "names": list(names), "op": op}
+                py = py_interleave_snippet(c) if op == "mul" else None
+                r = run(lambda: x.align(names))
+                if r[0] == "raise":
+                    ctx.count("interleave:declined")
+                    continue
+                g = r[1]
+                if tuple(g.inputs) != tuple(names):
+                    ctx.fail("input", "C19.interleave-inputs-order", witness=c, python=py,
+                             expected=str(list(names)), got=str(list(g.inputs)))
+                    break
+                bad = None
+                for pt0 in rng.sample(allpts, min(5, len(allpts))):
+                    env0 = dict(zip(names_all, pt0))
+                    vals = [float(t.data[tuple(env0[k] for k in keys)]) for t, keys in zip(ts, terms)]
+                    e = float(np.prod(vals)) if op == "mul" else float(np.sum(vals))
+                    by_name = float(_val(g, env0))
+                    by_pos = float(np.asarray(reinterpret(g(*[env0[k] for k in names])).data))
+                    if by_name != e or by_pos != e:
+                        bad = (env0, e, by_name, by_pos)
+                        break
+                if bad:
+                    ctx.fail("input", "C19.interleave-value", witness=dict(c, point=bad[0]), python=py,
+                             expected=str(bad[1]), got=f"by name {bad[2]}, by position {bad[3]}")
+                    break
+                ctx.case(nontrivial_key=("interleave", str(terms), str(sizes), names, op))
+        # ---- Tensor[i,k] + Gaussian[j,x], every permutation of (i, j, k, x) ---------------------
+        ni, nj, nk = rng.sample(NAMES, 3)
+        si, sj, sk = (2, 2, 2) if rnd % 2 == 0 else rng.sample([2, 3, 2], 3)
+        t = Tensor(np.arange(float(si * sk)).reshape(si, sk) / 7.0, OrderedDict([(ni, Bint[si]), (nk, Bint[sk])]))
+        wv = np.arange(sj * 1.0).reshape(sj, 1) / 3.0
+        ps = np.ones((sj, 1, 1)) + np.arange(sj * 1.0).reshape(sj, 1, 1) / 5.0
+        gs = Gaussian(wv, ps, OrderedDict([(nj, Bint[sj]), ("x", Real)]))
+        with normalize:
+            xg = t + gs
+        xv = Tensor(np.array(rng.choice([0.5, -0.25])))
+        keys4 = [ni, nj, nk, "x"]
+        for names in itertools.permutations(keys4):
+            c = {"stream": "interleave", "kind": "Tensor+Gaussian", "tensor": [ni, nk], "gaussian": [nj, "x"],
+                 "sizes": {ni: si, nj: sj, nk: sk}, "names": list(names)}
+            r = run(lambda: xg.align(names))
+            if r[0] == "raise":
+                ctx.count("interleave:gaussian-declined")
+                continue
+            g = r[1]
+            if tuple(g.inputs) != tuple(names):
+                ctx.fail("input", "C19.interleave-inputs-order", witness=c, expected=str(list(names)), got=str(list(g.inputs)))
+                break
+            bad = None
+            for _ in range(2):
+                env0 = {ni: rng.randrange(si), nj: rng.randrange(sj), nk: rng.randrange(sk), "x": xv}
+                e = float(t.data[env0[ni], env0[nk]]) + float(np.asarray(gs(**{nj: env0[nj], "x": xv}).data))
+                by_name = float(_val(g, env0))
+                by_pos = float(np.asarray(reinterpret(g(*[env0[k] for k in names])).data))
+                if abs(by_name - e) > 1e-9 or abs(by_pos - e) > 1e-9:
+                    bad = (str({k: (v if isinstance(v, int) else float(v.data)) for k, v in env0.items()}), e, by_name, by_pos)
+                    break
+            if bad:
+                ctx.fail("input", "C19.interleave-value", witness=dict(c, point=bad[0]),
+                         expected=str(bad[1]), got=f"by name {bad[2]}, by position {bad[3]}")
+                break
+            ctx.case(nontrivial_key=("interleave-g", ni, nj, nk, names, si, sj, sk))
+    # ---- funsor.symbolic: arguments are positional ------------------------------------------------
+    import funsor as _f
+    if hasattr(_f, "symbolic"):
+        @_f.symbolic
+        def f1(x: Real, y: Real, z: Real):
+            return x * z + y
+
+        @_f.symbolic
+        def f2(a: Real, b: Real, c: Real, d: Real):
+            return a * d + b * c
+
+        @_f.symbolic
+        def f3(x: Real, y: Real, z: Real):
+            return (x + z) * y
+        for fn, ar, ref in ((f1, 3, lambda x, y, z: x * z + y), (f2, 4, lambda a, b, c, d: a * d + b * c),
+                            (f3, 3, lambda x, y, z: (x + z) * y)):
+            for _ in range(4):
+                args = [rng.choice([2.0, 3.0, 5.0, -4.0, 0.5, 7.0]) for _ in range(ar)]
+                got = run(lambda: float(np.asarray(fn(*args).data)))
+                c = {"stream": "interleave", "kind": "symbolic", "inputs": list(fn.inputs), "args": args}
+                if got[0] == "raise":
+                    ctx.count("interleave:symbolic-declined")
+                    continue
+                if got[1] != ref(*args):
+                    ctx.fail("input", "C19.symbolic-positional-call", witness=c, expected=str(ref(*args)), got=str(got[1]))
+                    break
+                ctx.case(nontrivial_key=("symbolic", fn.__name__ if hasattr(fn, "__name__") else ar, tuple(args)))
+            ctx.count("interleave:symbolic")
+
+
+# ------------------------------------------------------------------------------------------
 # stream: funsor.make_op ops (op_factory.eager_tensor_made_op): to_data by name, raw fn, to_funsor
 # ------------------------------------------------------------------------------------------
 
@@ -1945,6 +2097,7 @@ def correspond(ctx):
     history_stream(ctx, 400 if quick else 4000)
     classes_stream(ctx, 25 if quick else 250)
     makeop_stream(ctx, 400 if quick else 3000)
+    interleave_stream(ctx, 6 if quick else 40)
     ctx.exhaustive = True
     ctx.assumptions.append("numpy reshape / transpose / broadcast_to are modelled by their index-level "
                            "specification (row-major ravel/unravel), not verified")
@@ -1986,3 +2139,6 @@ def search(ctx, broken):
     if found():
         return
     makeop_stream(ctx, 3000, use_driver=False)
+    if found():
+        return
+    interleave_stream(ctx, 20)
